@@ -62,6 +62,8 @@ def run_case(ctx, rng, idx):
         ctx.event("big-hypergraph")
         undirected_eval(ctx, rng, idx, big_hypergraph(rng, sizes=(1, 2, 2, 3, 4, 5), n=rng.randint(30, 50), m=rng.randint(80, 160)))
         return
+    if ctx.tier == "thorough" and idx % 20000 == 15:
+        return many_arcs_case(ctx, rng, idx)
     if idx % 4 == 3:
         return directed_case(ctx, rng, idx)
     from hypergraphx.representations import projections as pr
@@ -194,6 +196,28 @@ def undirected_eval(ctx, rng, idx, h, only_line=False):
         ctx.distinct_add(S.freeze())
     if idx % 100 < 2:
         ctx.sample({"object": S.describe()})
+
+
+def many_arcs_case(ctx, rng, idx):
+    """(Thorough tier.)  450 hyperedges into one node and 450 out of it: 202 500 arcs in the directed line graph; every arc
+    e->f with target(e) meeting source(f) is there, whatever their number."""
+    import hypergraphx as hgx
+    from hypergraphx.representations import projections as pr
+
+    ctx.event("202500-arcs")
+    k = 450
+    edges = [((1000 + i,), (0,)) for i in range(k)] + [((0,), (5000 + i,)) for i in range(k)]
+    h = hgx.DirectedHypergraph(edges)
+    r = call(pr.directed_line_graph, h, "intersection", 1, False)
+    if isinstance(r, _Raised):
+        ctx.check("C10:directed-line", False, f"C10:directed_line_graph:raised:{type(r.e).__name__}", {"arcs": k * k})
+        return
+    g, ids = r
+    key = {v: (frozenset(ids[v][0]), frozenset(ids[v][1])) for v in g.nodes}
+    exp = {(a, b) for a in key for b in key if a != b and key[a][1] & key[b][0]}
+    got = set(g.edges())
+    ctx.check("C10:directed-line", len(key) == 2 * k and got == exp, "C10:directed_line_graph(intersection):arcs", lambda: {"expected": len(exp), "got": len(got), "missing": sorted(exp - got)[:3], "extra": sorted(got - exp)[:3]})
+    ctx.distinct_add(("many-arcs", k))
 
 
 def directed_case(ctx, rng, idx):
